@@ -768,7 +768,7 @@ const("np.float32", ExtClass("np.float32", {"__new__": Builtin("np.float32", lam
 const("np.float64", ExtClass("np.float64", {"__new__": Builtin("np.float64", lambda ip, v: _float(ip, v))}, check=lambda v: False))
 const("np.int32", ExtClass("np.int32", {"__new__": Builtin("np.int32", lambda ip, v: trunc_int(ip, v))}, check=lambda v: False))
 const("np.int64", ExtClass("np.int64", {"__new__": Builtin("np.int64", lambda ip, v: trunc_int(ip, v))}, check=lambda v: False))
-const("np.ndarray", ExtClass("np.ndarray", check=lambda v: isinstance(v, SNum) and isinstance(v.tag, dict) and bool(v.tag.get("ndarray"))))
+const("np.ndarray", ExtClass("np.ndarray", check=lambda v: (isinstance(v, SNum) and isinstance(v.tag, dict) and bool(v.tag.get("ndarray"))) or type(v).__name__ == "NDList"))
 def _var_new(ip, initial_value=None, *a, **k):
   v = initial_value
   if isinstance(v, (FuncVal, BoundMethod, Builtin)):
